@@ -7,6 +7,7 @@ import (
 	"strings"
 	"sync"
 	"testing"
+	"time"
 
 	"github.com/bluenviron/mediamtx/internal/auth"
 	"github.com/bluenviron/mediamtx/internal/defs"
@@ -118,7 +119,13 @@ func TestVerifC03(t *testing.T) {
 				p.mu.Lock()
 				p.pa, p.ss = r2.Path, r2.SubStream
 				p.mu.Unlock()
+				// a live path applies a hot reload asynchronously: judge the configuration it settles on
 				inForce := r2.Path.SafeConf()
+				for w := 0; w < 500 && !inForce.Equal(res.Conf); w++ {
+					e.barrier()
+					time.Sleep(time.Millisecond)
+					inForce = r2.Path.SafeConf()
+				}
 				e.ev("pub2-ret", id, n, "ok")
 				confOf[id] = gen
 				r.Eval(fmt.Sprintf("%d|pub2|%s|%s|%v", round, u, n, reloaded))
